@@ -248,6 +248,15 @@ func (h *NFSProcedureHandler) handleMkdir(body io.Reader, reply *RPCReply, authC
 		return reply, nil
 	}
 
+	// The new directory changes its parent: drop the parent's cached attributes
+	// and listing, and any negative entry for the new name.
+	h.server.handler.attrCache.Invalidate(node.path)
+	h.server.handler.attrCache.InvalidateNegativeInDir(node.path)
+	h.server.handler.attrCache.Invalidate(dirPath)
+	if h.server.handler.dirCache != nil {
+		h.server.handler.dirCache.Invalidate(node.path)
+	}
+
 	// Apply uid/gid: use effective UID/GID from auth context as default,
 	// only allow explicit override if caller is root (not squashed).
 	{
